@@ -39,15 +39,19 @@ def check(tier):
             f.write(json.dumps(r) + "\n")
     results = []
     nrand, ln = (150, 120) if quick else (3000, 200)
-    for threads, env in ((1, None), (4, sess.PAR0)):
-        trace = os.path.join(wd, "table_trace_%d.ndjson" % threads)
-        args = ["table", "--threads", str(threads), "--random", str(nrand), "--uf-random", str(nrand // 2), "--len", str(ln),
+    for threads, env, unsorted in ((1, None, False), (4, sess.PAR0, False), (1, None, True), (4, sess.PAR0, True)):
+        trace = os.path.join(wd, "table_trace_%d%s.ndjson" % (threads, "u" if unsorted else ""))
+        args = ["table", "--threads", str(threads), "--random", str(nrand if not unsorted else nrand // 2), "--len", str(ln),
                 "--seed", str(core.seed() + threads), "--out", trace]
+        if unsorted:
+            args += ["--unsorted"]           # the table without a sort column, with a combining merge (Table!KeepTs)
+        else:
+            args += ["--uf-random", str(nrand // 2)]
         if threads == 1:
             args += ["--replays", rp]
         core.conform(args, env=env, timeout=1200)
-        events, bads, diffs = split_validate(trace)
-        results.append(("t%d%s" % (threads, "-par0" if env else ""), events, bads))
+        events, bads, diffs = split_validate(trace, cfg="Table_Trace_U.cfg" if unsorted else None)
+        results.append(("t%d%s%s" % (threads, "-par0" if env else "", "-unsorted" if unsorted else ""), events, bads))
     nruns = 0
     nev = 0
     distinct = set()
@@ -76,13 +80,13 @@ def check(tier):
                                 events=nev, merges_after_a_compaction=crossed))
     rc = V.finish()
     core.write_evidence(PID, tier, "model_checking", coverage, time.time() - t0, len(V.violations),
-                        ["one table shape: [key, val, ts] sorted by ts, merge = keep the larger val; keys 0..3; arities 0 and 2..4 and index-backed "
-                         "reads through RuleSet queries are not driven",
+                        ["two table shapes: [key, val, ts] sorted by ts with merge = keep the larger val, and the same columns without a sort column with a "
+                         "combining merge (larger val, timestamp of the replaced row); keys 0..3; arities 0 and 2..4 and index-backed reads through RuleSet queries are not driven",
                          "row order inside one timestamp is not specified (shard order): scans are compared as sets plus timestamp order"])
     return rc
 
 
-def split_validate(trace):
+def split_validate(trace, cfg=None):
     """validates in parallel chunks split at run boundaries"""
     events = core.read_ndjson(trace)
     starts = [i for i, e in enumerate(events) if e["e"] in ("tnew", "unew")]
@@ -98,7 +102,7 @@ def split_validate(trace):
     from concurrent.futures import ThreadPoolExecutor
     def work(part):
         lo, path = part
-        ev, bads, diffs, res = sess.validate(path, module="Table_Trace")
+        ev, bads, diffs, res = sess.validate(path, module="Table_Trace", cfg=cfg)
         return [(lo + i, c) for i, c in bads]
     bads = []
     with ThreadPoolExecutor(max_workers=chunks) as ex:
